@@ -319,6 +319,45 @@ theorem C10_exp_agent_api (argpart : List Int → Nat → List Nat) (c : ECfg) (
   exact ⟨by simp [agentGet, hg], fun p => by simp [agentSet, hg], fun r => by simp [agentNir, hg],
     fun k => by simp [agentNn, hg]⟩
 
+/-- `space.agent_positions` is a *view* of the filled rows, and a user write through it, `space.agent_positions[i] = p`
+    (or a vectorised update of all rows), at any state any history can reach: it lands in the row of the `i`-th agent of
+    `space.agents` with no validation — that agent then reports `p` even if `p` is outside the bounds of a bounded space
+    or un-wrapped on a torus — and touches nothing else: membership, order, index maps, counts, capacity and every other
+    agent's position are as before.  For a value the assignment rule stores as it is (in bounds) the write is
+    indistinguishable from `agent.position = p`.  Beyond the view it is an `IndexError`. -/
+theorem C10_exp_raw_view_write (c : ECfg) (cap : Nat) (ops : List EOp) (i : Nat) (p : Pos) :
+    let s := erun c cap ops
+    (∀ a, s.active[i]? = some a →
+      ∃ s', rawWrite s i p = .ok s' ∧ s'.active = s.active ∧ s'.a2i = s.a2i ∧ s'.n = s.n ∧ s'.cap = s.cap ∧
+        s'.gone = s.gone ∧ agentGet s' a = .ok p ∧ (∀ b, b ≠ a → agentGet s' b = agentGet s b) ∧
+        (inBounds c.dims p = true → s' = erun c cap (ops ++ [.set a p]))) ∧
+    (s.active.length ≤ i → rawWrite s i p = .error .index) := by
+  dsimp only
+  have h := erun_refines c cap ops
+  refine ⟨fun a ha => ?_, fun hi => ?_⟩
+  · have hidx : (erun c cap ops).a2i a = some i := (h.inv.idx a i).mpr ha
+    have hlt : i < (erun c cap ops).view := by rw [h.inv.view]; exact h.inv.lt hidx
+    have hmem : a ∈ (erun c cap ops).active := List.mem_of_getElem? ha
+    refine ⟨{ erun c cap ops with buf := upd (erun c cap ops).buf i p }, by simp [rawWrite, hlt], rfl, rfl, rfl, rfl, rfl,
+      ?_, fun b hb => ?_, fun hin => ?_⟩
+    · rw [agentGet_of_mem (einv_set h.inv i p) (by exact hmem), getPos_set h.inv hidx]; simp
+    · simp only [agentGet]
+      rw [getPos_set h.inv hidx]; simp [hb]
+    · have hstep : erun c cap (ops ++ [EOp.set a p]) = estep (erun c cap ops) (EOp.set a p) := by
+        simp only [erun, List.foldl_append, List.foldl_cons, List.foldl_nil]
+      rw [hstep]
+      show _ = (match agentSet (erun c cap ops) a p with | .ok s' => s' | .error _ => erun c cap ops)
+      rw [agentSet_of_mem h.inv hmem]
+      rcases setPos_spec h.inv a p with ⟨hn, _⟩ | ⟨_, hr, _⟩ | ⟨q, j, _, hr, hj, he⟩
+      · exact absurd hmem hn
+      · rw [h.cfg] at hr; simp [eassign, hin] at hr
+      · rw [h.cfg] at hr
+        have hq : q = p := by simp [eassign, hin] at hr; exact hr.symm
+        have hji : j = i := by rw [hidx] at hj; cases hj; rfl
+        rw [he, hq, hji]
+  · have : ¬ i < (erun c cap ops).view := by rw [h.inv.view, h.inv.len]; omega
+    simp [rawWrite, this]
+
 /-! ## radius queries -/
 
 /-- Legacy, every history: `get_neighbors(p, r, include_center)` returns exactly the agents in the space
@@ -829,6 +868,10 @@ example : nearestNeighbors (fun _ _ => [0, 1, 2, 3, 4])
     (erun exE1 0 [.new 1, .set 1 [0], .new 2, .set 2 [0], .new 3, .set 3 [0], .new 4, .set 4 [0], .new 5, .set 5 [0]]) 3 1 =
     .ok [(1, 0), (2, 0)] := by rfl
 
+/-- a raw write can put an agent outside a bounded space: what `C10_exp_positions_inside` excludes for the agent API -/
+example : (rawWrite (erun exE 0 exEOps) 1 [999, 0, 0]).toOption.map (fun s => agentGet s 3) = some (.ok [999, 0, 0]) := by
+  rfl
+example : inBounds exE.dims [999, 0, 0] = false := by decide
 end Examples
 
 end Mesa.Cont
